@@ -387,6 +387,12 @@ func literalValue(t Term) Term {
 	return t
 }
 
+// StrLt declares the string order on first use.
+func (d *Decls) StrLt() string {
+	d.add("str_lt", StrLtDecl)
+	return "str_lt"
+}
+
 // Trunc8 declares the truncation function on first use.
 func (d *Decls) Trunc8() string {
 	d.add("trunc8", Trunc8Decl)
